@@ -129,6 +129,7 @@ var c18Stmts = []c18Stmt{
 	{"update-or-compare", "UPDATE t SET a = ? WHERE b > ? OR a <= ?", 3, true, false, nil},
 	{"update-tested-expr-marker", "UPDATE t SET a = ? WHERE ? IN (a, b)", 2, true, false, nil},
 	{"update-arith", "UPDATE t SET a = a + ? WHERE b = ? - 1", 2, true, false, nil},
+	{"update-key-listed-unchanged", "UPDATE t SET a = ?, id = 10, b = ? WHERE id = 10", 2, true, false, nil},
 	{"update-primary-key", "UPDATE t SET id = ? WHERE id = ?", 2, false, false, nil},
 	{"delete-by-key", "DELETE FROM t WHERE id = ?", 1, true, false, nil},
 	{"delete-parens-or", "DELETE FROM t WHERE (a = ?) OR b = ?", 2, true, false, nil},
@@ -140,6 +141,7 @@ var c18Stmts = []c18Stmt{
 	{"update-composite-key", "UPDATE t SET a = ? WHERE id = ? AND uid = ?", 3, true, true, nil},
 	{"delete-composite-key", "DELETE FROM t WHERE uid = ?", 1, true, true, nil},
 	{"insert-composite-reordered", "INSERT INTO t (uid, a, id) VALUES (?, ?, ?)", 3, true, true, map[int]int64{0: 31, 2: 30}},
+	{"upsert-composite-mixed-colliding-key-text", "INSERT INTO t (id, uid, a) VALUES (10, 11, ?), (101, 1, ?) ON DUPLICATE KEY UPDATE a = ?", 3, true, true, nil},
 	{"insert-composite-two-rows", "INSERT INTO t (id, uid, a) VALUES (?, ?, ?), (?, ?, ?)", 6, true, true, map[int]int64{0: 30, 1: 31, 3: 40, 4: 41}},
 	{"update-order-limit", "UPDATE t SET a = ? WHERE b > ? ORDER BY a DESC LIMIT 1", 2, true, false, nil},
 	{"delete-order-limit-arg", "DELETE FROM t WHERE a <> ? ORDER BY b LIMIT ?", 2, true, false, map[int]int64{1: 1}},
@@ -219,6 +221,13 @@ func c18ImageMatches(d *aDB, img *types.RecordImage, want []aRow, full bool) boo
 			if full {
 				for k := range seen {
 					if !seen[k] {
+						return false
+					}
+				}
+			} else {
+				// only the updated columns are tracked: every column the statement assigns must be there
+				for k := range seen {
+					if d.setCols[k] && !seen[k] {
 						return false
 					}
 				}
